@@ -108,7 +108,15 @@ def write_case(case, d):
             out.append(f'        {k} = {_fmt(v)}')
     # ---- power
     out.append('[Power]')
-    if case.get('power') is not None:
+    if case.get('powers'):
+        # several time points: one power file each
+        names = []
+        for i, pw in enumerate(case['powers']):
+            nm = f'power_{i + 1}.csv'
+            write_power_csv({'power': pw}, os.path.join(d, nm))
+            names.append(nm)
+        out.append('    user_power = ' + ', '.join(names))
+    elif case.get('power') is not None:
         write_power_csv(case, os.path.join(d, 'power.csv'))
         out.append('    user_power = power.csv')
     if case.get('total_power') is not None:
